@@ -59,7 +59,7 @@ def one(n, pairs, sh, V, k, D, T, base, form, rng):
         K = max(K, 2)
     C = 36 * base ** K
     rec = dict(n=n, pat=[[r, c] for r, c in zip(rows, cols)], S=[int(x) for x in S], h=[int(x) for x in h], V=[int(v) for v in V],
-               k=[int(x) for x in k], D=int(D), cap=cap, base=base, C=C, T=T, form=form, Qc=[], exact=True, shift12=0, linear12=0, err="")
+               k=[int(x) for x in k], D=int(D), cap=cap, base=base, C=C, T=T, form=form, Qc=[], Qme=[], rowRes12=0, wide=False, exact=True, shift12=0, linear12=0, err="")
     try:
         with quiet():
             Q = SQRA(E, np.array(V, dtype=float), hm, Sm).get_rate_matrix(float(D), T)
@@ -84,12 +84,63 @@ def one(n, pairs, sh, V, k, D, T, base, form, rng):
     return rec
 
 
+def decompose(x, base):
+    """x = m * base^e with m a positive integer not divisible by base (m <= 2000), to 1e-9 relative; else None"""
+    if not (x > 0 and math.isfinite(x)):
+        return None
+    e0 = int(math.floor(math.log(x) / math.log(base)))
+    for e in range(e0 - 12, e0 + 2):
+        y = x / float(base) ** e if base == 2 else x * float(base) ** (-e)
+        m = round(y)
+        if 1 <= m <= 2000 and m % base and abs(y - m) <= 1e-9 * m:
+            return int(m), int(e)
+    return None
+
+
+def wide(n, pairs, sh, V, k, D, T, form, rng):
+    """energy levels spread over hundreds of kJ/mol (still below the cap): entries as mantissa and exponent"""
+    from molgri.molecules.transitions import SQRA
+    Sm, hm, rows, cols, S, h = build(n, pairs, sh, form)
+    E = np.array(k, dtype=float) * unit(T, 2)
+    rec = dict(n=n, pat=[[r, c] for r, c in zip(rows, cols)], S=[int(x) for x in S], h=[int(x) for x in h], V=[int(v) for v in V],
+               k=[int(x) for x in k], D=int(D), cap=-1, base=2, C=1, T=T, form=form, Qc=[], Qme=[], rowRes12=0, wide=True, exact=True,
+               shift12=0, linear12=0, err="")
+    try:
+        with quiet():
+            A = np.asarray(SQRA(E, np.array(V, dtype=float), hm, Sm).get_rate_matrix(float(D), T).toarray(), dtype=float)
+        if A.shape != (n, n) or not np.all(np.isfinite(A)):
+            rec["exact"] = False
+            return rec
+        for i in range(n):
+            for j in range(n):
+                if i != j and A[i, j] != 0:
+                    me = decompose(A[i, j] * 36, 2)
+                    if me is None:
+                        rec["exact"] = False
+                    else:
+                        rec["Qme"].append([i, j, me[0], me[1]])
+        big = np.max(np.abs(A), axis=1)
+        res = np.abs(A.sum(axis=1)) / np.where(big > 0, big, 1.0)
+        rec["rowRes12"] = int(np.ceil(np.max(res) * 1e12))
+        c = rng.uniform(-30, 30)
+        with quiet():
+            Q2 = SQRA(E + c, np.array(V, dtype=float), hm, Sm).get_rate_matrix(float(D), T).toarray()
+            Q3 = SQRA(E, np.array(V, dtype=float), hm, Sm).get_rate_matrix(2.0 * D, T).toarray()
+        scale = np.maximum(np.abs(A), 1e-300)
+        rec["shift12"] = int(min(np.ceil(np.max(np.abs(Q2 - A) / scale) * 1e12), 10 ** 9))
+        rec["linear12"] = int(min(np.ceil(np.max(np.abs(Q3 - 2 * A) / scale) * 1e12), 10 ** 9))
+    except Exception as ex:
+        rec["err"] = type(ex).__name__
+    return rec
+
+
 def run(ctx: Ctx):
     thorough = ctx.tier == "thorough"
     rng = random.Random(ctx.seed)
     ctx.cov["rule"] = ("all symmetric sparsity patterns on n = 2..4 cells (incl. empty, disconnected, isolated rows) and random "
                        "sparse patterns on n <= 8, S, h, V from small positive integers, energy levels with differences up to 4 "
-                       "(base 2) / 2 (base 3), T in {100, 273, 300, 1000, T_cap}, D in {1, 3}, csr / row-major coo / mixed storage; "
+                       "(base 2) / 2 (base 3) compared as exact rationals, plus level differences up to 495 kJ/mol (just below the "
+                       "cap) compared as mantissa and exponent, T in {100, 273, 300, 1000, T_cap}, D in {1, 3}, csr / row-major coo / mixed storage; "
                        "non-trivial = pattern with at least one pair")
     ctx.assumptions += ["energies on the lattice k * 2RT ln(base) so that the Boltzmann factor is an exact rational; "
                         "non-lattice reals only through the shift / linearity relations"]
@@ -124,6 +175,17 @@ def run(ctx: Ctx):
         base = 2 if T == T_CAP else rng.choice([2, 3])
         k = [rng.randint(0, 4 if base == 2 else 2) for _ in range(n)]
         recs.append(one(n, pairs, sh, V, k, rng.choice([1, 3]), T, base, rng.choice(["csr", "coo", "mixed"]), rng))
+    # wide energy ranges: level differences up to just below the 500 kJ/mol cap, entries as (mantissa, exponent)
+    for _ in range(120 if thorough else 30):
+        n = rng.randint(2, 6)
+        allpairs = list(itertools.combinations(range(n), 2))
+        pairs = rng.sample(allpairs, rng.randint(1, min(len(allpairs), 2 * n)))
+        sh = [rng.choice(SH) for _ in pairs]
+        V = [rng.choice([1, 2, 3, 6]) for _ in range(n)]
+        T = rng.choice([100.0, 273.0, 300.0, 1000.0])
+        kmax = int(495.0 / unit(T, 2))
+        k = [rng.choice([0, rng.randint(0, kmax), rng.randint(0, kmax // 8), kmax]) for _ in range(n)]
+        recs.append(wide(n, pairs, sh, V, k, rng.choice([1, 3]), T, rng.choice(["csr", "coo", "mixed"]), rng))
     for i, r in enumerate(recs):
         r["tid"] = i
         ctx.count(1, nontrivial_key=i if r["pat"] else None)
